@@ -280,7 +280,7 @@ Section Norm.
   Lemma ra_const_shl_ok : rule_ok AND ra_const_shl.
   Proof.
     intros a b t Ha Hb. unfold ra_const_shl.
-    destruct (and_const_shl_view a b) as [[[c s] y]|] eqn:V; [|discriminate]. intros H; inversion H; subst t. clear H.
+    destruct (and_const_shl_view a b) as [[[c s] y]|] eqn:V; [|discriminate]. intros H.
     unfold and_const_shl_view in V.
     destruct a as [c0| | | | | | | | | | | | | | | ]; try discriminate V.
     destruct b as [| | | | | |o0 b1 b2| | | | | | | | | ]; try discriminate V.
@@ -292,10 +292,14 @@ Section Norm.
     assert (Wc : inw c) by (apply constw_inw; assumption).
     assert (Ws : constw (wshr s c) = true).
     { apply inw_constw. apply wshr_range; [exact Wc|lia]. }
-    destruct (mk2_ok AND (TConst (wshr s c)) y Ws) as [S5 E5]; [assumption|].
-    unfold ok. cbn [wsort evalw eval_op2]. rewrite S5, E5.
-    split; [match goal with H : constw s = true |- _ => rewrite H end; reflexivity|].
-    cbn [evalw eval_op2]. symmetry. apply and_const_shl. lia.
+    destruct (Z.land (wshr s c) (Z.ones (256 - s)) =? Z.ones (256 - s)) eqn:Mk; inversion H; subst t; clear H.
+    - apply Z.eqb_eq in Mk. unfold ok. cbn [wsort evalw eval_op2].
+      split; [repeat match goal with Hx : _ = true |- _ => rewrite Hx end; reflexivity|].
+      symmetry. rewrite and_const_shl by lia. apply shl_mask_drop; [lia|exact Mk].
+    - destruct (mk2_ok AND (TConst (wshr s c)) y Ws) as [S5 E5]; [assumption|].
+      unfold ok. cbn [wsort evalw eval_op2]. rewrite S5, E5.
+      split; [match goal with Hx : constw s = true |- _ => rewrite Hx end; reflexivity|].
+      cbn [evalw eval_op2]. symmetry. apply and_const_shl. lia.
   Qed.
 
   Lemma ra_and_r_ok : rule_ok AND ra_and_r.
@@ -675,6 +679,27 @@ Section Norm.
         intros x Hx. cbn [evalm]. unfold mstore8. rewrite IE by exact Hx. reflexivity.
   Qed.
 
+  Lemma drop_same8_sound a m : msort m = true -> wsort a = true ->
+    msort (drop_same8 a m) = true /\
+    (forall x, x <> ev a -> evalm r (drop_same8 a m) x = evalm r m x).
+  Proof.
+    intros Hm Ha.
+    induction m as [z|n0|k|k|k a1 _|o a1 _|o a1 _ a2 _|o a1 _ a2 _ a3 _|m0 _ a1 _|s0 _ k _|m0 _ a1 _ a2 _
+                   | |m0 IH a1 _ v _|m0 IH a1 _ v _| |s0 _ k _ v _]; try discriminate Hm.
+    - split; [reflexivity|intros; reflexivity].
+    - cbn [msort] in Hm. apply andb_true_iff in Hm. destruct Hm as [Hm Hv].
+      apply andb_true_iff in Hm. destruct Hm as [Hm Ha1]. destruct (IH Hm) as [IS IE].
+      cbn [drop_same8]. split; [cbn [msort]; rewrite IS, Ha1, Hv; reflexivity|].
+      intros x Hx. cbn [evalm]. unfold mstore. rewrite IE by exact Hx. reflexivity.
+    - cbn [msort] in Hm. apply andb_true_iff in Hm. destruct Hm as [Hm Hv].
+      apply andb_true_iff in Hm. destruct Hm as [Hm Ha1]. destruct (IH Hm) as [IS IE].
+      cbn [drop_same8]. destruct (term_eqb a a1) eqn:D.
+      + apply term_eqb_eq in D. subst a1. split; [exact IS|]. intros x Hx. rewrite IE by exact Hx.
+        cbn [evalm]. symmetry. apply mstore8_other. exact Hx.
+      + split; [cbn [msort]; rewrite IS, Ha1, Hv; reflexivity|].
+        intros x Hx. cbn [evalm]. unfold mstore8. rewrite IE by exact Hx. reflexivity.
+  Qed.
+
   Lemma mstore_drop_same m a v : msort m = true -> wsort a = true ->
     forall x, mstore (evalm r (drop_same a m)) (ev a) v x = mstore (evalm r m) (ev a) v x.
   Proof.
@@ -885,8 +910,10 @@ Section Norm.
       cbn [evalm]. unfold mstore. rewrite Em. reflexivity.
     - (* mstore8 *) split3. sorts_in Hs. destruct (proj1 (proj2 IHm) Hs) as [Sm Em]. destruct (proj1 IHa Hs1) as [Sa Ea].
       destruct (proj1 IHv Hs0) as [Sv Ev].
-      destruct (ins_store_sound false _ _ _ Sm Sa Sv) as [S' E']. split; [exact S'|]. intros x. rewrite E', Ea, Ev.
-      cbn [store_w evalm]. unfold mstore8. rewrite Em. reflexivity.
+      destruct (drop_same8_sound _ _ Sm Sa) as [DS DE].
+      destruct (ins_store_sound false _ _ _ DS Sa Sv) as [S' E']. split; [exact S'|]. intros x. rewrite E', Ea, Ev.
+      cbn [store_w evalm]. unfold mstore8. destruct (x =? ev a) eqn:Q; [reflexivity|].
+      apply Z.eqb_neq in Q. rewrite DE by (rewrite Ea; exact Q). apply Em.
     - split3. split; [reflexivity|intros; reflexivity].
     - (* sstore *) split3. sorts_in Hs. destruct (proj2 (proj2 IHs) Hs) as [Ss Es]. destruct (proj1 IHk Hs1) as [Sk Ek].
       destruct (proj1 IHv Hs0) as [Sv Ev].
